@@ -33,7 +33,8 @@ func String(v any) string {
 }
 
 // StringElems dumps v, rendering every integer that is a direct element of a slice or array with
-// elemInt (used to renumber payloads of containers: sound by parametricity of generic containers).
+// elemInt (used to renumber payloads of containers: sound by parametricity of generic containers) and
+// including the capacity of every slice (it decides when a container grows next).
 func StringElems(v any, elemInt func(int64) string) string {
 	d := &dumper{ptrs: map[uintptr]int{}, elemInt: elemInt}
 	d.value(reflect.ValueOf(v))
@@ -132,6 +133,10 @@ func (d *dumper) value(v reflect.Value) {
 		d.b.WriteString("[")
 		if v.Kind() == reflect.Slice {
 			d.b.WriteString("len" + strconv.Itoa(v.Len()) + ":")
+			if d.elemInt != nil {
+				// container keys: the capacity decides when the next growth happens, so it is part of the state
+				d.b.WriteString("cap" + strconv.Itoa(v.Cap()) + ":")
+			}
 		}
 		for i := 0; i < v.Len(); i++ {
 			if i > 0 {
